@@ -226,6 +226,70 @@ func c17Check(env *core.Env, cc core.Case) core.Verdict {
 		}
 		return v
 
+	case "generate-include-many":
+		// a large include file made of many short lines (the size, not one line, crosses 64 KiB)
+		n := c.Len/12 + 2
+		var sb strings.Builder
+		for i := 0; i < n; i++ {
+			fmt.Fprintf(&sb, "w%010d\n", i)
+		}
+		text := sb.String()
+		if c.NoFinal {
+			text = strings.TrimSuffix(text, "\n")
+		}
+		tree := sut.Tree{"regex-assembly/include/many.ra": text, "regex-assembly/exclude/none.ra": "nothing\n"}
+		prog := "zulu26\n##!> include many\n"
+		if c.Pos == "last" {
+			prog = "zulu26\n##!> include-except many none\n"
+		}
+		tree["regex-assembly/932100.ra"] = prog
+		if err := tree.Write(root); err != nil {
+			return core.Incon("cannot write tree: %v", err)
+		}
+		before := sut.Snap(root)
+		r := sut.Run(sut.Cmd{Bin: env.Bin, Args: []string{"-d", root, "regex", "generate", "932100"}, Dir: root, Timeout: 120 * 1e9})
+		if done, vv := loud(r, before); done {
+			return vv
+		}
+		re, err := regexp.Compile(string(r.Stdout))
+		if err != nil {
+			return core.Viol("invalid-output:generate-include-many", "generate printed something that is not a regex: %v", err)
+		}
+		for _, i := range []int{0, 1, n / 2, n - 2, n - 1} {
+			if w := fmt.Sprintf("w%010d", i); !re.MatchString(w) {
+				return core.Viol("entry-dropped:generate-include-many", "an include file of %d short lines (%d bytes): the generated regex does not accept entry %d (%s)", n, len(text), i+1, w)
+			}
+		}
+		return v
+
+	case "renumber-all":
+		// two files under --all: the long line sits in the second one
+		long := `          uri: "/get?x=` + longBody(c.Len) + `"`
+		lines := c.place(long, func(i int) string {
+			if i%3 == 0 {
+				return fmt.Sprintf("  - test_id: %d", 40+i)
+			}
+			return fmt.Sprintf("    desc: line %d", i)
+		})
+		content := c.join(lines)
+		first := "---\ntests:\n  - test_id: 7\n    desc: small first file\n  - test_id: 9\n"
+		relA, relB := "tests/regression/tests/REQUEST-920-X/920100.yaml", "tests/regression/tests/REQUEST-932-X/932100.yaml"
+		if err := (sut.Tree{relA: first, relB: content}).Write(root); err != nil {
+			return core.Incon("cannot write tree: %v", err)
+		}
+		before := sut.Snap(root)
+		r := cli(env, root, nil, "util", "renumber-tests", "--all")
+		if done, vv := loud(r, before); done {
+			return vv
+		}
+		for rel, in := range map[string]string{relA: first, relB: content} {
+			got, _ := sut.Read(root, rel)
+			if want := c13Model(filepathBaseRule(rel), in); got != want {
+				return core.Viol("lines-lost:renumber-all", "renumber-tests --all with a %d-byte line in the second file: %s has %d bytes, expected %d\n%s", c.Len, rel, len(got), len(want), firstDiffShort(got, want))
+			}
+		}
+		return v
+
 	case "renumber":
 		long := `          uri: "/get?x=` + longBody(c.Len) + `"`
 		lines := c.place(long, func(i int) string {
@@ -320,6 +384,16 @@ func c17Check(env *core.Env, cc core.Case) core.Verdict {
 				return core.Viol("entry-dropped:update", "update: with a %d-byte entry at position %s the stored regex does not accept entry %d of %d", c.Len, c.Pos, i+1, len(lines))
 			}
 		}
+		// compare has to read the long line as well: the rule just updated and the rule behind it are unchanged
+		for _, id := range []string{"932100", "932110"} {
+			if id == "932110" {
+				continue // it has no assembly file in this tree
+			}
+			cm := sut.Run(sut.Cmd{Bin: env.Bin, Args: []string{"-d", root, "regex", "compare", id}, Dir: root, Timeout: 120 * 1e9})
+			if cm.Exit != 0 || !strings.Contains(string(cm.Stdout), "has not changed") {
+				return core.Viol("compare-after-update:long-line", "compare %s right after update (the rules file has a line of %d bytes): exit %d, stdout %s", id, len(line), cm.Exit, core.Q(tail(cm.Stdout, 2)))
+			}
+		}
 		return v
 	}
 	return core.Incon("unknown command %s", c.Cmd)
@@ -362,7 +436,7 @@ func init() {
 					lens = append(lens, 65000+rng.Intn(1200), 131072-2+rng.Intn(5), 600000+rng.Intn(500000))
 				}
 			}
-			for _, cmd := range []string{"generate", "generate-stdin", "generate-include", "generate-include-affix", "generate-except", "generate-cmdline", "generate-define", "generate-define-include", "format", "format-check", "renumber", "copyright", "update"} {
+			for _, cmd := range []string{"generate", "generate-stdin", "generate-include", "generate-include-affix", "generate-except", "generate-cmdline", "generate-define", "generate-define-include", "generate-include-many", "format", "format-check", "renumber", "renumber-all", "copyright", "update"} {
 				for _, l := range lens {
 					for _, pos := range []string{"first", "middle", "last"} {
 						for _, nf := range []bool{false, true} {
@@ -388,4 +462,9 @@ func init() {
 		MinNontrivial: 100,
 		Assumptions:   []string{"Go's regexp engine decides membership of the entries in the printed regex"},
 	})
+}
+
+func filepathBaseRule(rel string) string {
+	b := rel[strings.LastIndex(rel, "/")+1:]
+	return b[:6]
 }
